@@ -62,9 +62,29 @@ def check_closures(ctx, cfg, want_normal=False, rule_p="C04.P", rule_o="C04.O"):
             # reading without position tracking is ownership-linear only where the elements need no drop
             link_closure(ctx, cfg, b, info, role, rule_p)
         n += 1
-    for k in FROZEN + (FROZEN_F1 if cfg != "F0" else []):
-        if k not in seen:
-            ctx.ob(rule_p, k, MISSING, "anchored element-moving closure not found (or it no longer moves elements)", cfg=cfg)
+    # (the closures of the reviewed tree are listed in FROZEN for the record; element-moving code is discovered, not anchored:
+    #  a closure that became a loop is judged by the loop rules below, one that disappeared with its function has nothing to judge)
+    from ..loops import find_loops, link_loop
+    for b in db.bodies:
+        if b["kind"] not in ("Fn", "AssocFn", "Closure"):
+            continue
+        if not any(t["term"]["k"] == "call" and t["term"]["f"].get("k") == "fn" and t["term"]["f"]["def"] in ("core::iter::Iterator::next", "core::iter::DoubleEndedIterator::next_back") for t in b["mir"]["blocks"]):
+            continue
+        a = ctx.analysis(cfg, b["key"])
+        for lp in find_loops(a):
+            role, ok, det, info = check_closure_protocol(a, cl, lp)
+            if role == "none":
+                continue
+            probs = list(info["normal_problems"] if want_normal else info["unwind_problems"])
+            if want_normal and info["at_break"] and any(any(x != 0 for x in st[0]) or any(x != 0 for x in st[1]) for st in info["at_break"]) and any(st[0] != st[2][:len(st[0])] and st[1] != st[2][:len(st[1])] for st in info["at_break"]):
+                probs.append("the loop can be left in the middle of a step with a slot moved but its position not advanced")
+            k = "%s#%s" % (b["key"], lp.key)
+            ctx.ob(rule_p, k, not probs,
+                   ("; ".join(probs) if probs else "%s loop step: %d slot(s), positions %s; state at each of the %d foreign/panic call sites is consistent (CLEAN)" % (
+                       role, len(info["slots"]), [p_[1] for p_ in info["positions"]], len(info["at_foreign"]))), at=lp.nxt.at, cfg=cfg, frozen=False)
+            if not want_normal or role == "untracked-consumer":
+                link_loop(ctx, cfg, b, lp, info, role, rule_o if not want_normal else rule_p)
+            n += 1
     return n
 
 
